@@ -8,6 +8,47 @@
   `mu = alpha + W0[c] + V0[d1] + V0[d2] + ⟨W[c], V1[d1]+V1[d2]⟩ + ⟨W[c], V2[d1]∘V2[d2]⟩` (control contributes 0);
   priors `W0 ~ N(0,1/τ0)`, `V0[m] ~ N(0,1/(φ0[m]η0))`, `W[c,d] ~ N(0,1/τ_d)`, `V2, V1` with `φ·η`.
 
+  CLAUSE MAP (property text → theorems)
+  1. "each Gaussian block update (per-sample and per-treatment intercepts, sample embeddings, first- and second-order
+     treatment embeddings) … is drawn from the full conditional implied by the model's likelihood and priors"
+       scalar blocks W0, V0 : `C08_block_W0`, `C08_block_W0_canonical`, `C08_block_V0`, `C08_block_V0_canonical`
+                              (both branches, with / without data), `C08_mu_affine_W0/V0`
+       vector blocks W, V2, V1 : `C08_gaussian_block`, `C08_mu_affine_W/V2/V1`, `C08_block_W/V2/V1`, `C08_block_canonical`,
+                              `C08_block_nodata`, `C08_block_Q_posdef`; what is handed to the draw: `C08_logged_args`
+       side conditions (`0 ≤ prec`, `0 < λ`, cache invariant) hold at EVERY state in which a block of a reachable
+       history is resampled: `C08_init_state`, `C08_reachable_pos`, `C08_gauss_keeps_hyper`, `C08_reachable_gauss_states`
+       harness-only / trusted: that `normal(m, s)` draws `N(m, s²)` (numpy's generator law); float32 storage and rounding.
+  2. "each conjugate precision update (observation noise, intercept and embedding scales) …"
+       `C08_gamma_prec`, `C08_gamma_prec_nodata`, `C08_gamma_tau0`, `C08_gamma_phi0`, `C08_gamma_eta0`, `C08_gamma_phi`,
+       `C08_gamma_eta`, `C08_gamma_gam`, `C08_tau_cumprod`; on the stage functions the driver runs:
+       `C08_gamma_tau0_stage`, `C08_gamma_prec_stage`, `C08_gamma_V0_stage`, `C08_gamma_V2_stage`, `C08_gamma_V1_stage`,
+       `C08_gamma_gam_sweep`, `C08_gamma_gam_current_not_stale`
+       harness-only / trusted: that `gamma(a, scale)` draws `Gamma(a, rate 1/scale)`; the identities are stated with `L`
+       standing for `log p` (universally quantified), the density reading of them is prose.
+  3. "… given the current value of every other block"
+       `C08_block_within_stage`, `C08_sweep_stages`, the `*_stage` theorems, `C08_gamma_gam_sweep` (current factors)
+  4. "the global intercept is held at the mean of the transformed observations"      `C08_alpha`
+  5. "every precision stays inside its documented bounds"
+       `C08_bounds`, `C08_bounds_clip`, `C08_bounds_pos`, initially `C08_init_state`
+       (`prec` without observations is the raw prior draw — the code returns before the clip — `C08_gamma_prec_stage`)
+  6. "After every block the sampler's running fitted values equal those implied by its current parameters"
+       `C08_mu_cache_init/alpha/W0/V0/W/V2/V1`, `C08_block_within_stage`, `C08_mu_cache_sweep`, `C08_mu_cache_history`;
+       excluded input class (known finding) with a proved counterexample: `C08_self_pair_breaks_cache`
+       harness-only: numpy's fancy-index semantics of `Mu[idx] += …` (modelled by `Blk.muNext` / `sMuNext`).
+  7. "every block is visited once per step in the documented order"                   `C08_order`, `C08_sweep_stages`
+  8. "the multivariate normal draw has mean Q⁻¹b and covariance Q⁻¹"
+       `C08_mvn` (any upper factor), `C08_chol_correct` (the executable Cholesky factorisation is correct for EVERY size when
+       the pivots are positive), `C08_mvn_sample_chol` (no contract hypothesis left), `C08_chol_pivots_small` (1×1, 2×2
+       positive definite input has positive pivots), `C08_mvn_sample` (under the contract)
+       trusted: numpy's `cholesky` returns THE upper factor with positive diagonal (unique; compared with `chol` on every run);
+       positive pivots for positive definite `Q` of size ≥ 3 (standard, not proved here); `z ~ N(0, I)`.
+  9. "The posterior sample exported after any step reproduces, on the training experiments, the sampler's fitted values
+     and its noise precision"                                                         `C08_export_reproduces`
+       harness-only: the exported arrays are copies (aliasing is not expressible in a functional model).
+  Quantifier: all datasets / embedding sizes / states along any number of steps — every theorem is for arbitrary `dt`, `D`,
+  start state and choice logs; reachable states: `C08_reachable_pos`, `C08_reachable_gauss_states`; samples / treatments
+  without data: `C08_block_nodata`, the no-data branch of `C08_block_W0/V0`, `C08_gamma_prec_nodata`.
+
   Probability facts used only in prose (trusted base): a density ∝ exp(−½xᵀQx + bᵀx) is `N(Q⁻¹b, Q⁻¹)`;
   `z ~ N(0,I)` makes `Az + m ~ N(m, AAᵀ)`; a density ∝ p^(a−1) e^(−rp) is `Gamma(a, rate r)`.
 
@@ -22,6 +63,8 @@ import Batchie.Lemmas.GibbsGamma
 import Batchie.Lemmas.GibbsMvn
 import Batchie.Lemmas.GibbsPrecStages
 import Batchie.Lemmas.GibbsPosDef
+import Batchie.Lemmas.GibbsReach
+import Batchie.Lemmas.GibbsChol
 
 namespace Batchie.Props.C08
 open Batchie.Gibbs Finset Matrix
@@ -656,6 +699,93 @@ theorem C08_mvn_sample (D : ℕ) (Q : ℕ → ℕ → ℝ) (b z : ℕ → ℝ) (
   have h := C08_mvn D (chol D Q) b z hU hdiag
   rw [hchol] at h
   exact ⟨h.1, h.2.1⟩
+
+/-! ## 7. reachable states: the side conditions of the block theorems hold whenever a block is resampled -/
+
+/-- the state built by `__init__`: every precision positive and inside its documented range -/
+theorem C08_init_state (dt : Data ℝ) : PosState initState ∧ InBounds dt initState :=
+  ⟨posState_init, inBounds_init dt⟩
+
+/-- along every history from `__init__` (or from any state with positive precisions) every precision is positive at the
+    start of every sweep.  With observations this needs nothing about the draws (clip ranges); without observations `prec`
+    is the raw gamma draw, so that draw must be positive (a gamma variate is). -/
+theorem C08_reachable_pos (dt : Data ℝ) (ωs : List (Draws ℝ)) (st : State ℝ) (h0 : PosState st)
+    (hprec : dt.N ≠ 0 ∨ ∀ ω ∈ ωs, 0 < ω.prec) :
+    PosState (runSweeps dt ωs st) ∧ PosState (runSweeps dt ωs initState) :=
+  ⟨posState_history dt ωs st h0 hprec, posState_history dt ωs initState posState_init hprec⟩
+
+/-- no Gaussian block writes a hyper-parameter: after any number of units of any of the five loops, and after each Gaussian
+    stage of a sweep, `prec, tau0, phi0, eta0, tau, phi2, eta2, phi1, eta1, gam` are those the sweep started with -/
+theorem C08_gauss_keeps_hyper (dt : Data ℝ) (ω : Draws ℝ) (st : State ℝ) (k : ℕ) :
+    (SameHyper st (iter k (w0Block dt ω) st) ∧ SameHyper st (iter k (v0Block dt ω) st)
+      ∧ SameHyper st (iter k (wBlock dt ω) st) ∧ SameHyper st (iter k (v2Block dt ω) st)
+      ∧ SameHyper st (iter k (v1Block dt ω) st))
+    ∧ SameHyper st (gaussPart dt ω st) :=
+  ⟨sameHyper_iters dt ω st k, (sameHyper_gauss dt ω st).2.2.2.2.2⟩
+
+/-- EVERY state in which a Gaussian block is resampled during the sweep that follows a reachable state `s` (unit `k` of each
+    of the five loops) satisfies the cache invariant and has positive precisions — the hypotheses of `C08_block_W0/V0` and of
+    `C08_block_W/V2/V1`, `C08_block_Q_posdef` are discharged for reachable states -/
+theorem C08_reachable_gauss_states (dt : Data ℝ) (hw : WellFormed dt) (hp : NoSelfPair dt) (ω : Draws ℝ) (s : State ℝ)
+    (hs : PosState s) (k : ℕ) :
+    let s1 := alphaStep dt (reconstructMu dt s)
+    let s2 := w0Step dt ω s1
+    let s3 := v0Step dt ω s2
+    let s4 := wStep dt ω s3
+    let s5 := v2Step dt ω s4
+    (CacheOK dt (iter k (w0Block dt ω) s1) ∧ PosState (iter k (w0Block dt ω) s1))
+    ∧ (CacheOK dt (iter k (v0Block dt ω) s2) ∧ PosState (iter k (v0Block dt ω) s2))
+    ∧ (CacheOK dt (iter k (wBlock dt ω) s3) ∧ PosState (iter k (wBlock dt ω) s3))
+    ∧ (CacheOK dt (iter k (v2Block dt ω) s4) ∧ PosState (iter k (v2Block dt ω) s4))
+    ∧ (CacheOK dt (iter k (v1Block dt ω) s5) ∧ PosState (iter k (v1Block dt ω) s5)) := by
+  intro s1 s2 s3 s4 s5
+  obtain ⟨g1, g2, g3, g4, g5, -⟩ := sameHyper_gauss dt ω s
+  have c1 : CacheOK dt s1 := cache_alpha dt _ (cache_reconstruct dt s)
+  have c2 : CacheOK dt s2 := cache_w0Step dt ω s1 c1
+  have c3 : CacheOK dt s3 := cache_v0Step dt hw hp ω s2 c2
+  have c4 : CacheOK dt s4 := cache_wStep dt ω s3 c3
+  have c5 : CacheOK dt s5 := cache_v2Step dt hw hp ω s4 c4
+  have p := fun (t : State ℝ) (g : SameHyper s t) => posState_of_sameHyper g hs
+  refine ⟨⟨(C08_block_within_stage dt hw hp ω s1 c1 k).1.1, ?_⟩, ⟨(C08_block_within_stage dt hw hp ω s2 c2 k).1.2.1, ?_⟩,
+    ⟨(C08_block_within_stage dt hw hp ω s3 c3 k).1.2.2.1, ?_⟩, ⟨(C08_block_within_stage dt hw hp ω s4 c4 k).1.2.2.2.1, ?_⟩,
+    ⟨(C08_block_within_stage dt hw hp ω s5 c5 k).1.2.2.2.2, ?_⟩⟩
+  · exact p _ (sameHyper_trans g1 (sameHyper_iters dt ω s1 k).1)
+  · exact p _ (sameHyper_trans g2 (sameHyper_iters dt ω s2 k).2.1)
+  · exact p _ (sameHyper_trans g3 (sameHyper_iters dt ω s3 k).2.2.1)
+  · exact p _ (sameHyper_trans g4 (sameHyper_iters dt ω s4 k).2.2.2.1)
+  · exact p _ (sameHyper_trans g5 (sameHyper_iters dt ω s5 k).2.2.2.2)
+
+/-! ## 8. the Cholesky factorisation of the model is correct -/
+
+/-- for EVERY size `D`: if `Q` is symmetric and the pivots `Q i i − Σ_{k<i} U k i²` of the factorisation are positive (the
+    condition under which it goes through; numpy raises `LinAlgError` otherwise and the block keeps its value), the executable
+    `chol D Q` is upper triangular with positive diagonal and `UᵀU = Q` -/
+theorem C08_chol_correct (D : ℕ) (Q : ℕ → ℕ → ℝ) (hsym : ∀ i j, i < D → j < D → Q i j = Q j i)
+    (hpiv : ∀ i, i < D → 0 < pivot Q (chol D Q) i) :
+    UpperTri D (chol D Q) ∧ (∀ i, i < D → 0 < chol D Q i i)
+      ∧ (∀ i j, i < D → j < D → ∑ k ∈ range D, chol D Q k i * chol D Q k j = Q i j)
+      ∧ (toMat D (chol D Q))ᵀ * toMat D (chol D Q) = toMat D Q := by
+  have h := chol_ok D Q hsym hpiv
+  exact ⟨h.upper, h.diag_pos, h.gram, (cholOK_matrix D Q _ h).2⟩
+
+/-- `sample_mvn_from_precision` as modelled, with the Cholesky contract DISCHARGED: the result is `U⁻¹ z + Q⁻¹ b` with
+    `U⁻¹ U⁻ᵀ = Q⁻¹` -/
+theorem C08_mvn_sample_chol (D : ℕ) (Q : ℕ → ℕ → ℝ) (b z : ℕ → ℝ) (hsym : ∀ i j, i < D → j < D → Q i j = Q j i)
+    (hpiv : ∀ i, i < D → 0 < pivot Q (chol D Q) i) :
+    toVec D (sampleMvn D Q b z) = (toMat D (chol D Q))⁻¹ *ᵥ toVec D z + (toMat D Q)⁻¹ *ᵥ toVec D b
+    ∧ (toMat D (chol D Q))⁻¹ * ((toMat D (chol D Q))⁻¹)ᵀ = (toMat D Q)⁻¹ := by
+  have h := chol_ok D Q hsym hpiv
+  exact C08_mvn_sample D Q b z h.upper (cholOK_matrix D Q _ h).1 (cholOK_matrix D Q _ h).2
+
+/-- symbolic positive definite input of size 1 and 2 (`q00 > 0`, `det > 0`) has positive pivots -/
+theorem C08_chol_pivots_small (Q : ℕ → ℕ → ℝ) (h0 : 0 < Q 0 0) :
+    (∀ i, i < 1 → 0 < pivot Q (chol 1 Q) i)
+    ∧ (0 < Q 0 0 * Q 1 1 - Q 0 1 * Q 0 1 → ∀ i, i < 2 → 0 < pivot Q (chol 2 Q) i) :=
+  ⟨pivots_1x1 Q h0, fun hdet => pivots_2x2 Q h0 hdet⟩
+
+example : ∃ Q : ℕ → ℕ → ℝ, (∀ i j, i < 2 → j < 2 → Q i j = Q j i) ∧ ∀ i, i < 2 → 0 < pivot Q (chol 2 Q) i :=
+  ⟨fun i j => if i = j then 2 else 1, fun i j _ _ => by by_cases h : i = j <;> simp [h, eq_comm],
+    pivots_2x2 _ (by norm_num) (by norm_num)⟩
 
 /-! ## non-vacuity of the hypotheses -/
 
